@@ -8,6 +8,7 @@ C01 / C08 — the importer step (file → grid of cells), model `Model.Importer`
   cell by cell (`C08_twins_cell_by_cell`).
 -/
 import TableauVerif.Model.Importer
+import TableauVerif.Spec.Grid
 namespace TableauVerif.Props.C01Grid
 open TableauVerif TableauVerif.Model.Importer
 
@@ -29,7 +30,7 @@ theorem C01_csv_only_blank_lines_dropped (q : Bool) (rows : List (List Str)) :
     simp [List.mem_filter, hr, blankLine, hne]
 
 /-- the text at a cell position (blank outside) -/
-def cellAt (g : List (List Str)) (i j : Nat) : Str := (g.getD i []).getD j []
+abbrev cellAt := Spec.Grid.cellAt
 
 theorem takeWhile_all {α} (p : α → Bool) : ∀ (l : List α) (x : α), x ∈ l.takeWhile p → p x = true
   | [], _, h => by simp at h
@@ -80,7 +81,7 @@ theorem getD_map_trim (rows : List (List Str)) (i : Nat) :
 
 theorem C08_xlsx_cells_verbatim (rows : List (List Str)) (i j : Nat) :
     cellAt (xlsxGrid rows) i j = cellAt rows i j := by
-  unfold cellAt xlsxGrid
+  unfold cellAt Spec.Grid.cellAt xlsxGrid
   rw [getD_trimRight, getD_map_trim]
   exact getD_trimRight (rows.getD i []) j
 
@@ -88,6 +89,33 @@ theorem C08_xlsx_cells_verbatim (rows : List (List Str)) (i j : Nat) :
 theorem C08_twins_cell_by_cell (q : Bool) (rows : List (List Str)) (h : ∀ r ∈ rows, r ≠ [[]]) (i j : Nat) :
     cellAt (csvGrid q rows) i j = cellAt (xlsxGrid rows) i j := by
   rw [C01_csv_rows_verbatim q rows h, C08_xlsx_cells_verbatim]
+
+theorem sameCells_of_cells (w o : List (List Str)) (h : ∀ i j, cellAt o i j = cellAt w i j) :
+    Spec.Grid.sameCells w o = true := by
+  unfold Spec.Grid.sameCells
+  simp only [List.all_eq_true, List.mem_range, beq_iff_eq]
+  intro i _ j _
+  exact h i j
+
+/-- the importer model meets the cell-by-cell specification the oracle `o.imp.grid` evaluates (CSV) -/
+theorem C01_csv_model_meets_spec (q : Bool) (rows : List (List Str)) :
+    Spec.Grid.holds (!q) rows (csvGrid q rows) = true := by
+  unfold Spec.Grid.holds csvGrid
+  cases q
+  · simp only [Bool.not_false, if_true, Bool.false_eq_true, if_false]
+    have : (rows.filter fun r => !blankLine r) = rows.filter (· != [[]]) := by
+      apply List.filter_congr; intro r _; simp [blankLine, bne]
+    rw [this]
+    exact sameCells_of_cells _ _ (fun _ _ => rfl)
+  · simp only [Bool.not_true, Bool.false_eq_true, if_false, if_true]
+    exact sameCells_of_cells _ _ (fun _ _ => rfl)
+
+/-- … and for XLSX -/
+theorem C08_xlsx_model_meets_spec (rows : List (List Str)) :
+    Spec.Grid.holds false rows (xlsxGrid rows) = true := by
+  unfold Spec.Grid.holds
+  simp only [Bool.false_eq_true, if_false]
+  exact sameCells_of_cells _ _ (fun i j => C08_xlsx_cells_verbatim rows i j)
 
 -- tests (labelled as tests): premises satisfiable, trimming visible
 example : xlsxGrid [[[97], [], []], [], [[], [98]], [], [[]]] = [[[97]], [], [[], [98]]] := by decide
